@@ -91,6 +91,31 @@ CHECKS["C12"] = dict(level="model_checking", ref="DESIGN.md 5 C12", tech=TECH,
     note="Trusted: TLC, the driver's canary comparison (a written 0xA5 at the very end of the data cannot be told from an "
          "untouched byte), the ModeTable (block/tag/fixed sizes for a 1024-bit RSA key, P-256, Ed25519). Depth 3-4 "
          "exhaustive, 10-14 by simulation; 20 modes.")
+TECH2 = TECH + " + independent decoder of the token directory"
+CHECKS["C09"] = dict(level="model_checking", ref="DESIGN.md 5 C09", tech=TECH2,
+    text="Store.tla states that a refused call changes neither the objects in memory nor the token directory "
+         "(FailedNoEffect), wherever the refused entry stands; TLC enumerates every failing position of every bad "
+         "entry kind in the templates of all creating and modifying calls over the reachable populations; every "
+         "transition is executed and TLC compares the full object set with all attribute values (API) and the decoded "
+         "directory (no junk files) with the specification after every call.",
+    note="Trusted: TLC, the driver, vf/tokdec.py. Both backends in the thorough tier. Failures caused by file-system "
+         "faults are explored by the C16 machinery.")
+CHECKS["C05"] = dict(level="model_checking", ref="DESIGN.md 5 C05", tech=TECH2,
+    text="Store.tla relates memory and disk (Durable, NeverReappear, RestartRestores); TLC enumerates histories of "
+         "create/copy/set/destroy/restart; every transition is executed on the file and the SQLite backend and after "
+         "every call the acting library, a NEW PROCESS and the independent decoder must show the specification's "
+         "state; session-object lifetime is replayed on P11Core; golden fixtures written by the pinned version are "
+         "opened by the current library and TLC (Trace_Fixture) demands the recorded state.",
+    note="Trusted: TLC, the driver, vf/tokdec.py, the fixtures (written once by the pinned build incl. a 300 kB value). "
+         "Power loss is out of scope (no fsync in the code); durable = visible to a new process. Quick tier samples the "
+         "walks of the bounded graph (exhaustive = false), thorough covers it.")
+CHECKS["C06"] = dict(level="model_checking", ref="DESIGN.md 5 C06", tech=TECH2,
+    text="Store.tla fixes the storage form of every slot (PrivateBytesEncrypted); every storing path is executed and "
+         "the independent decoder (own parser, PBE via hashlib, AES via libcrypto EVP) reads the directory with the "
+         "user PIN after every call: forms and decrypted values must be the specification's; plus IV reuse, master "
+         "key and private values in clear, and mode bits outside objectstore.umask (several umasks, both backends).",
+    note="Trusted: TLC, vf/tokdec.py, libcrypto. Key classes: generic secret and X.509 certificate. An empty byte "
+         "string may be stored in either form; a private copy re-uses the ciphertext of unchanged values.")
 NA = {
     "C17": "memory safety and arbitrary byte-level inputs are outside what a TLA+ specification and trace validation can "
            "observe (DESIGN.md 5 C17); crashes met while replaying are reported under the property whose check ran",
